@@ -93,7 +93,14 @@ void vp_tr_bytes(vp_ctx_t* c, const uint8_t* p, size_t n);
 void vp_tr_tag(vp_ctx_t* c, const char* tag);
 void vp_tr_mark(vp_ctx_t* c, const char* chunk);   /* H|chunk|hash|items ; resets */
 
-static inline void vp_call(vp_ctx_t* c) { c->ops++; if (c->hook) c->hook(c); }
+extern volatile unsigned long vp_progress_counter;      /* bumped before every library call: the progress watchdog reads it */
+#ifdef VP_PROGRESS      /* single-threaded monitors that start the progress watchdog define this before including vp.h */
+#define VP_PROGRESS_TICK() ((void)(vp_progress_counter++))
+#else
+#define VP_PROGRESS_TICK() ((void)0)
+#endif
+static inline void vp_call(vp_ctx_t* c) { c->ops++; VP_PROGRESS_TICK(); if (c->hook) c->hook(c); }
+void        vp_watchdog_start(void);                        /* no library call started for 14-21 CPU seconds: reported as a hang */
 
 /* ------------------------------------------------------------------ arena (write monitor) */
 typedef struct {
